@@ -1018,7 +1018,7 @@ class _CxIfPathSegmentLiteral(_CxParent):
         self._literal = literal
 
     def src(self, indentation: int) -> str:
-        template = "{0}if path[{1}] == '{2}':\n{3}"
+        template = '{0}if path[{1}] == {2!r}:\n{3}'
         return template.format(
             _TAB_STR * indentation,
             self._segment_idx,
